@@ -59,3 +59,7 @@ pub mod c16;
 pub mod c15gen {
     include!("gen/c15_list.rs");
 }
+#[cfg(all(kani, feature = "c20"))]
+pub mod c20;
+#[cfg(all(kani, feature = "witness"))]
+pub mod probe;
